@@ -432,6 +432,10 @@ static inline int myth_create_ex_body(myth_thread_t * id,
 
   // Initialize thread descriptor
   init_myth_thread_struct(env, new_thread);
+  if (attr && attr->detachstate) {
+    /* created detached: the finisher releases the descriptor itself */
+    myth_desc_set_detached(new_thread);
+  }
   new_thread->result = arg;
 
   size_t stk_size = stack_size - sizeof(void*) * 2;
